@@ -18,6 +18,7 @@ open Generated
 def nondetAllow : List (NondetSite × String) := [
   (⟨"x/jklmint/abci.go", "BeginBlocker", "wallclock", "time.Now"⟩, "telemetry only (ModuleMeasureSince); the value never reaches state"),
   (⟨"x/storage/abci.go", "BeginBlocker", "wallclock", "time.Now"⟩, "telemetry only (ModuleMeasureSince); the value never reaches state"),
+  (⟨"x/storage/keeper/grpc_query_pay_info.go", "Keeper.PaymentInfo", "hostzone", "time.UnixMicro"⟩, "query path only (the placeholder returned for an account without a plan): an instant, no calendar arithmetic on it, never written to state"),
   (⟨"x/storage/keeper/msg_server_attest.go", "Keeper.RequestAttestation", "rand", "github.com/tendermint/tendermint/libs/rand.Seed"⟩, "seeds the global generator with the block height; the form members come from GetActiveProviders' own generator"),
   (⟨"x/storage/keeper/providers.go", "Keeper.GetActiveProviders", "rand", "github.com/tendermint/tendermint/libs/rand.NewRand"⟩, "fresh generator re-seeded with the block height before use: same draws on every node"),
   (⟨"x/storage/keeper/providers.go", "Keeper.GetRandomizedProviders", "rand", "github.com/tendermint/tendermint/libs/rand.NewRand"⟩, "fresh generator re-seeded with the block height before use (query path)"),
